@@ -72,7 +72,9 @@ CLAIMED = {
          "lock-protected blocks are five interleavable steps each (no lock-order deadlock, a holder can always proceed). C07_no_lost_wakeup / "
          "C07_sleepers_do_not_act / C07_q_terminates / C07_q_can_finish: the same for the wake-up model in which threads sleep inside Queue.get / Queue.join "
          "and only put's notify() and the last task_done's notify_all() wake anybody (real sleeps and wake-ups are replayed through it). The cooperative "
-         "scheduler's deadlock detector runs on every controlled schedule.", "4/C07"),
+         "scheduler's deadlock detector runs on every controlled schedule. C07_priorities_computed: the default scheduler's priority computation "
+         "(greedy.pred_search) ends for every DAG having numbered every node once. Known finding F8 (Thread.start failing during the pool's start-up "
+         "hangs run; the model assumes threads can be created) is printed as KNOWN-FINDING.", "4/C07"),
  "C08": ("proof", "Lean 4 proof (Good preserved by every prefix of every history, no ordering assumption; Good in every reachable state of the run) + cut injection at random events",
          "Whatever subset of writes completed before a cut, in whatever order, Good holds (C08_cut, C08_every_prefix, C08_fault); the next complete run is "
          "correct (C08_next_run_correct); completed writes whose upstream was settled are not out of date afterwards (C08_no_redo). C08_end_to_end_cut / "
